@@ -1790,14 +1790,14 @@ pub fn big_build_specs(thorough: bool, seed: u64) -> Vec<(String, GraphSpec)> {
         }
         out.push((format!("chain of {n} functions inserted tail first (depth beyond 1024)"), GraphSpec { fns, edges, batches: vec![] }));
     }
-    // sparse: more than 1024 / 2048 (thorough: 4096) functions, every function has 0..=2
+    // sparse: more than 1024 / 2048 functions, every function has 0..=2
     // predecessors among the 40 before it in a hidden order (forks, joins, long chains),
     // four data types with a few writers and some readers each - per type the rank order
     // reads writer, readers, writer, readers, ...
-    let mut sparse: Vec<usize> = vec![1030 + (seed % 40) as usize, 2050 + (seed % 60) as usize];
-    if thorough {
-        sparse.push(4100 + (seed % 90) as usize);
-    }
+    // (no larger instance in the thorough tier: `build()` of the unchanged library is
+    // quadratic-to-cubic, 4 100 functions with data access take more CPU than the build
+    // watchdog allows any single build)
+    let sparse: Vec<usize> = vec![1030 + (seed % 40) as usize, 2050 + (seed % 60) as usize];
     for n in sparse {
         let mut order: Vec<usize> = (0..n).collect();
         for i in (1..n).rev() {
